@@ -321,7 +321,7 @@ Section C07Calc.
     (* the matrix handed to the second SNF is d2 * B[:, r1..] *)
     assert (Hd2r : nr d2r = nr d2 /\ nc d2r = (nr d1 - r1)%nat /\ mwf d2r /\
                    meq (nr d2) (nr d1 - r1) (mg d2r) (d2' o (nr d1) (mg d2) B r1)).
-    { destruct (Nat.ltb_spec O r1) as [Hpos|Hzero].
+    { unfold restrict_d2 in E0. fold r1 in E0. destruct (Nat.ltb_spec O r1) as [Hpos|Hzero].
       - inv_bind E0. rename d into p1inv. inv_bind E0. rename d into t2.
         apply submat_some in E3. destruct E3 as [_ [Hc [T1 [T2 [_ T3]]]]].
         apply dmul_some in E0. destruct E0 as [M1 [M2 [M3 [M4 M5]]]].
@@ -623,5 +623,204 @@ Section C07Calc.
           destruct HU as [_ [HU _]]. rewrite HU.
           rewrite nth_indep with (d' := mg (sr_d s1) O O) by (rewrite map_length, seq_length; lia).
           rewrite (map_nth (fun k => mg (sr_d s1) k k)), seq_nth by lia. reflexivity.
+  Qed.
+  (* ======================================================================================== *)
+  (* completeness: the generators span, and the coordinates detect the boundaries *)
+  Lemma finite_choice {A : Type} (P : nat -> A -> Prop) (d : A) N :
+    (forall l, (l < N)%nat -> exists a, P l a) -> exists f : nat -> A, forall l, (l < N)%nat -> P l (f l).
+  Proof.
+    induction N as [|N IH]; intros H.
+    - exists (fun _ => d). intros l Hl. lia.
+    - destruct (IH ltac:(intros l Hl; apply H; lia)) as [f Hf].
+      destruct (H N ltac:(lia)) as [a Ha].
+      exists (fun l => if l =? N then a else f l). intros l Hl.
+      destruct (Nat.eqb_spec l N) as [->|Hne]; [exact Ha|apply Hf; lia].
+  Qed.
+
+  Definition complete_ok (d1 d2 : dmat R) (rank : nat) (tors : list R) (p q : dmat R) : Prop :=
+    let h := (rank + length tors)%nat in
+    let n := nr d1 in
+    forall z : nat -> R,
+      (forall i, (i < nr d2)%nat -> mvec o n (mg d2) z i = 0) ->              (* z is a cycle *)
+      (* z is homologous to the combination of the generators given by its coordinates *)
+      (exists x : nat -> R, forall i, (i < n)%nat ->
+         z i = mvec o h (mg q) (mvec o n (mg p) z) i + mvec o (nc d1) (mg d1) x i) /\
+      (* and z is a boundary as soon as its coordinates vanish modulo the torsion orders *)
+      ((forall i, (i < rank)%nat -> mvec o n (mg p) z i = 0) ->
+       (forall s, (s < length tors)%nat -> exists c, mvec o n (mg p) z (rank + s)%nat = nth s tors 0 * c) ->
+       exists x : nat -> R, forall i, (i < n)%nat -> z i = mvec o (nc d1) (mg d1) x i).
+
+  Theorem calculate_complete d1 d2 rank tors tr :
+    snf_contract -> mwf d1 -> mwf d2 -> zero_prod d1 d2 ->
+    calculate o isu snf d1 d2 true = Some (rank, tors, tr) ->
+    exists t p q,
+      tr = Some t /\ forward_mat o t = Some p /\ backward_mat o t = Some q /\
+      complete_ok d1 d2 rank tors p q.
+  Proof.
+    intros HC W1 W2 Hdd H.
+    destruct (d_is_zero o d1 && d_is_zero o d2) eqn:Hz.
+    - unfold calculate in H.
+      destruct (nr d1 =? nc d2) eqn:En; cbn [negb] in H; [|discriminate].
+      apply Nat.eqb_eq in En. rewrite Hz in H. injection H as <- <- <-.
+      apply andb_true_iff in Hz. destruct Hz as [Z1 Z2]. rewrite d_is_zero_spec in Z1, Z2.
+      exists (trans_id (nr d1)), (d_id o (nr d1)), (d_id o (nr d1)).
+      split; [reflexivity|]. split; [reflexivity|]. split; [reflexivity|].
+      unfold complete_ok. cbn zeta. cbn [length]. rewrite Nat.add_0_r.
+      intros z Hzc.
+      assert (Eid : forall (v : nat -> R) i, (i < nr d1)%nat -> mvec o (nr d1) (mg (d_id o (nr d1))) v i = v i).
+      { intros v i Hi. rewrite (mvec_ext_row o _ (mid o)) by (intros l Hl; now apply mget_d_id).
+        now apply (mvec_id o L). }
+      assert (Ed1 : forall (x : nat -> R) i, (i < nr d1)%nat -> mvec o (nc d1) (mg d1) x i = 0).
+      { intros x i Hi. unfold mvec. apply (sum_zero_ext o L). intros l Hl. rewrite Z1 by assumption. ring. }
+      split.
+      + exists (fun _ => 0). intros i Hi. rewrite Eid by assumption.
+        rewrite Eid by assumption. rewrite Ed1 by assumption. ring.
+      + intros Hfree _. exists (fun _ => 0). intros i Hi. rewrite Ed1 by assumption.
+        rewrite <- (Eid z i Hi). now apply Hfree.
+    - destruct (calculate_core d1 d2 true rank tors tr HC W1 W2 Hdd H Hz)
+        as [En [s1 [s2 [P1 [B [Q1 [Q1i [P2 [P2i [Q2 [Q2i HH]]]]]]]]]]].
+      cbn zeta in HH. destruct HH as [S1 [S2 [Hch [Hle [Hrk [Htors [_ HT]]]]]]].
+      destruct (HT eq_refl) as [p [q [T1 [T2 [T3 [T4 [T5 [T6 [T7 T8]]]]]]]]].
+      exists (mk_trans (nr d1) (rank + length tors) [p] [q]), p, q.
+      split; [exact T1|]. split; [reflexivity|]. split; [reflexivity|].
+      set (t := length tors) in *. set (r1 := sr_rank o s1) in *. set (r2 := sr_rank o s2) in *.
+      set (n := nr d1) in *.
+      pose proof (units_first (fun k => mg (sr_d s1) k k) r1 Hch) as HU.
+      cbn zeta in HU. rewrite <- Htors in HU. fold t in HU.
+      destruct HU as [_ [HU1 [HU2 _]]].
+      (* inverses of the unit entries *)
+      destruct (finite_choice (fun l u => mg (sr_d s1) l l * u = 1) 0 (r1 - t)) as [uinv Hu].
+      { intros l Hl. apply isu_sound. now apply HU2. }
+      unfold complete_ok. cbn zeta. fold t. fold n.
+      intros z Hzc.
+      assert (Ep : forall i, (i < rank + t)%nat ->
+                 mvec o n (mg p) z i = mvec o n (pF o n P1 r1 Q2i r2 t) z i).
+      { intros i Hi. apply mvec_ext_row. intros l Hl. now apply T7. }
+      assert (Eq : forall i, (i < n)%nat ->
+                 mvec o (rank + t) (mg q) (mvec o n (mg p) z) i
+                 = mvec o (n - r1 - r2 + t) (qF o n B r1 Q2 r2 t) (mvec o n (pF o n P1 r1 Q2i r2 t) z) i).
+      { intros i Hi. rewrite <- Hrk.
+        rewrite (mvec_ext_row o _ (qF o n B r1 Q2 r2 t)) by (intros l Hl; now apply T8).
+        apply mvec_ext. intros l Hl. now apply Ep. }
+      split.
+      + destruct (cycle_decomp o L Hint _ _ _ _ _ Hdd _ _ _ _ _ _ S1 _ _ _ _ _ _ S2 t T6 uinv Hu z Hzc) as [x Hx].
+        exists x. intros i Hi. rewrite Eq by assumption. now apply Hx.
+      + intros Hfree Htor.
+        destruct (finite_choice (fun s c => mvec o n (mg p) z (rank + s)%nat = nth s tors 0 * c) 0 t Htor) as [cf Hcf].
+        apply (cycle_boundary o L Hint _ _ _ _ _ Hdd _ _ _ _ _ _ S1 _ _ _ _ _ _ S2 t T6 uinv Hu z Hzc cf).
+        * intros i Hi. fold n. rewrite <- Ep by lia. apply Hfree. lia.
+        * intros s Hs. fold n. rewrite <- Hrk. rewrite <- Ep by lia. rewrite Hcf by assumption.
+          f_equal. rewrite HU1.
+          rewrite nth_indep with (d' := mg (sr_d s1) O O) by (rewrite map_length, seq_length; lia).
+          rewrite (map_nth (fun k => mg (sr_d s1) k k)), seq_nth by lia. reflexivity.
+  Qed.
+  (* ======================================================================================== *)
+  (* totality: under the contract no assert of the homology code fires - [calculate] is [None] only when
+     the shapes do not match or one of the two SNF calls is [None] *)
+  Lemma submat_ok A i0 i1 j0 j1 :
+    (i0 <= i1 <= nr A)%nat -> (j0 <= j1 <= nc A)%nat ->
+    exists M, submat o A i0 i1 j0 j1 = Some M /\ nr M = (i1 - i0)%nat /\ nc M = (j1 - j0)%nat.
+  Proof.
+    intros H1 H2. destruct (submat_total A i0 i1 j0 j1 H1 H2) as [M HM].
+    exists M. split; [exact HM|]. apply submat_some in HM. tauto.
+  Qed.
+
+  Lemma dmul_ok A B : nc A = nr B -> exists C, dmul o A B = Some C /\ nr C = nr A /\ nc C = nc B.
+  Proof.
+    intros H. destruct (dmul_total A B H) as [C HC]. exists C. split; [exact HC|].
+    apply dmul_some in HC. tauto.
+  Qed.
+
+  Lemma stack_ok A B : nc A = nc B -> exists C, stack o A B = Some C /\ nr C = (nr A + nr B)%nat /\ nc C = nc A.
+  Proof.
+    intros H. unfold stack. apply Nat.eqb_eq in H. rewrite H. eexists. split; [reflexivity|]. split; reflexivity.
+  Qed.
+
+  Lemma concat_ok A B : nr A = nr B -> exists C, concat o A B = Some C /\ nr C = nr A /\ nc C = (nc A + nc B)%nat.
+  Proof.
+    intros H. unfold concat. apply Nat.eqb_eq in H. rewrite H. eexists. split; [reflexivity|]. split; reflexivity.
+  Qed.
+
+  Lemma non_units_length l : (length (non_units isu l) <= length l)%nat.
+  Proof.
+    unfold non_units. induction l as [|x l IH]; cbn [filter length]; [lia|].
+    destruct (negb (isu x)); cbn [length]; lia.
+  Qed.
+
+  Lemma restrict_d2_total d1 d2 wt s1 :
+    snf_contract -> mwf d1 -> nr d1 = nc d2 ->
+    snf d1 wt true false false = Some s1 ->
+    exists d2r, restrict_d2 o (nr d1) s1 d2 = Some d2r /\ nr d2r = nr d2 /\ nc d2r = (nr d1 - sr_rank o s1)%nat /\
+                (mwf d2 -> mwf d2r).
+  Proof.
+    intros HC W1 Hn E. pose proof (HC _ _ _ _ _ _ W1 E) as Ok1. apply snf_ok_use in Ok1.
+    destruct Ok1 as [P1 [B [Q1 [Q1i U1]]]].
+    pose proof (sm_r _ _ _ _ _ _ _ _ _ _ (us_smith _ _ _ _ _ _ _ _ _ _ U1)) as Hr.
+    unfold restrict_d2. destruct (Nat.ltb_spec O (sr_rank o s1)) as [Hpos|Hzero].
+    - destruct (us_spi _ _ _ _ _ _ _ _ _ _ U1) as [p1inv [Ep [Hp1 Hp2]]]. rewrite Ep. cbn [obind].
+      unfold submat_cols.
+      destruct (submat_ok p1inv O (nr p1inv) (sr_rank o s1) (nr d1)) as [t2 [Et [T1 T2]]]; [lia|lia|].
+      rewrite Et. cbn [obind].
+      destruct (dmul_ok d2 t2) as [C [EC [C1 C2]]]; [lia|].
+      exists C. split; [exact EC|]. split; [exact C1|]. split; [lia|].
+      intros _. apply dmul_some in EC. tauto.
+    - exists d2. split; [reflexivity|]. split; [reflexivity|]. split; [lia|]. tauto.
+  Qed.
+
+  Theorem calculate_total d1 d2 wt s1 d2r s2 :
+    snf_contract -> mwf d1 -> mwf d2 -> nr d1 = nc d2 ->
+    snf d1 wt true false false = Some s1 ->
+    restrict_d2 o (nr d1) s1 d2 = Some d2r ->
+    snf d2r false false wt wt = Some s2 ->
+    exists res, calculate o isu snf d1 d2 wt = Some res.
+  Proof.
+    intros HC W1 W2 Hn E1 Er E2.
+    unfold calculate. apply Nat.eqb_eq in Hn. rewrite Hn. cbn [negb]. apply Nat.eqb_eq in Hn.
+    destruct (d_is_zero o d1 && d_is_zero o d2); [eexists; reflexivity|].
+    unfold process_snf. rewrite E1. cbn [obind]. rewrite Er. cbn [obind]. rewrite E2. cbn [obind fst snd].
+    destruct (restrict_d2_total d1 d2 wt s1 HC W1 Hn E1) as [d2r' [Er' [Hk [Hc Hw]]]].
+    rewrite Er in Er'. injection Er' as <-.
+    pose proof (HC _ _ _ _ _ _ W1 E1) as Ok1. apply snf_ok_use in Ok1. destruct Ok1 as [P1 [B [Q1 [Q1i U1]]]].
+    pose proof (HC _ _ _ _ _ _ (Hw W2) E2) as Ok2. apply snf_ok_use in Ok2. destruct Ok2 as [P2 [P2i [Q2 [Q2i U2]]]].
+    pose proof (sm_r _ _ _ _ _ _ _ _ _ _ (us_smith _ _ _ _ _ _ _ _ _ _ U1)) as Hr1.
+    pose proof (sm_r _ _ _ _ _ _ _ _ _ _ (us_smith _ _ _ _ _ _ _ _ _ _ U2)) as Hr2.
+    rewrite Hc in Hr2.
+    set (r1 := sr_rank o s1) in *. set (r2 := sr_rank o s2) in *. set (n := nr d1) in *.
+    assert (G : (r1 + r2 <=? n) = true) by (apply Nat.leb_le; lia).
+    unfold result. rewrite (us_nr _ _ _ _ _ _ _ _ _ _ U1). fold r1 r2 n. rewrite G. cbn [obind fst snd].
+    destruct wt; [|eexists; reflexivity].
+    (* trans: every range, product and block assembly is well-shaped *)
+    unfold calc_trans. rewrite (us_nr _ _ _ _ _ _ _ _ _ _ U1). fold r1 r2 n. rewrite G. cbn [negb].
+    set (t := length (non_units isu (sr_factors o s1))).
+    assert (Ht : (t <= r1)%nat).
+    { unfold t. rewrite (us_factors _ _ _ _ _ _ _ _ _ _ U1). fold r1.
+      etransitivity; [apply non_units_length|]. now rewrite map_length, seq_length. }
+    destruct (us_sp _ _ _ _ _ _ _ _ _ _ U1) as [p1 [Ep1 [Hp1 Hp1']]]. fold n in Hp1, Hp1'.
+    destruct (us_spi _ _ _ _ _ _ _ _ _ _ U1) as [q1 [Eq1 [Hq1 Hq1']]]. fold n in Hq1, Hq1'.
+    destruct (us_sq _ _ _ _ _ _ _ _ _ _ U2) as [q2 [Eq2 [Hq2 Hq2']]]. rewrite Hc in Hq2, Hq2'.
+    destruct (us_sqi _ _ _ _ _ _ _ _ _ _ U2) as [p2 [Ep2 [Hp2 Hp2']]]. rewrite Hc in Hp2, Hp2'.
+    rewrite Ep1. cbn [obind]. unfold submat_rows, submat_cols.
+    destruct (submat_ok p1 r1 n O (nc p1)) as [p11 [E11 [A1 A2]]]; [lia|lia|]. rewrite E11. cbn [obind].
+    rewrite Ep2. cbn [obind].
+    destruct (submat_ok p2 r2 (n - r1) O (nc p2)) as [p22 [E22 [B1 B2]]]; [lia|lia|]. rewrite E22. cbn [obind].
+    destruct (dmul_ok p22 p11) as [pfree [Epf [C1 C2]]]; [lia|]. rewrite Epf. cbn [obind].
+    replace (t <=? r1) with true by (symmetry; apply Nat.leb_le; exact Ht). cbn [negb].
+    destruct (submat_ok p1 (r1 - t) r1 O (nc p1)) as [ptor [Ept [D1 D2]]]; [lia|lia|]. rewrite Ept. cbn [obind].
+    destruct (stack_ok pfree ptor) as [p [Epp [F1 F2]]]; [lia|]. rewrite Epp. cbn [obind].
+    replace ((nr p =? n - r1 - r2 + t) && (nc p =? n)) with true
+      by (symmetry; apply andb_true_iff; split; apply Nat.eqb_eq; lia).
+    cbn [negb]. rewrite Eq1. cbn [obind].
+    destruct (submat_ok q1 O (nr q1) r1 n) as [q12 [E12 [A1' A2']]]; [lia|lia|]. rewrite E12. cbn [obind].
+    rewrite Eq2. cbn [obind].
+    destruct (submat_ok q2 O (nr q2) r2 (n - r1)) as [q22 [E22' [B1' B2']]]; [lia|lia|]. rewrite E22'. cbn [obind].
+    destruct (dmul_ok q12 q22) as [qfree [Eqf [C1' C2']]]; [lia|]. rewrite Eqf. cbn [obind].
+    destruct (submat_ok q1 O (nr q1) (r1 - t) r1) as [qtor [Eqt [D1' D2']]]; [lia|lia|]. rewrite Eqt. cbn [obind].
+    destruct (concat_ok qfree qtor) as [q [Eqq [F1' F2']]]; [lia|]. rewrite Eqq. cbn [obind].
+    replace ((nr q =? n) && (nc q =? n - r1 - r2 + t)) with true
+      by (symmetry; apply andb_true_iff; split; apply Nat.eqb_eq; lia).
+    cbn [negb]. unfold trans_new, trans_append. cbn [tgt_dim trans_id].
+    replace ((nc p =? nr q) && (nr p =? nc q) && (nc p =? nc p)) with true
+      by (symmetry; rewrite !andb_true_iff; repeat split; apply Nat.eqb_eq; lia).
+    cbn [obind]. eexists; reflexivity.
   Qed.
 End C07Calc.
